@@ -105,12 +105,47 @@ class DumpEntry:
         self.alts = []           # further stores of the same key on other branches
 
 
+_CONST_SCOPE = {}     # id(flow) -> (repo, FuncInfo): where module-level / class-level constant names of that function resolve
+
+
+def _named_constant(fl, ex):
+    """value expression of a module-level constant (or a class-level one read through self. / cls. / the class name) that is assigned
+    exactly once, at top level, in the module of the analysed function"""
+    scope = _CONST_SCOPE.get(id(fl))
+    if scope is None:
+        return None
+    repo, f = scope
+    d = dotted(ex)
+    if d is None:
+        return None
+    tree = repo.trees.get(f.module)
+    if tree is None:
+        return None
+    parts = d.split(".")
+    if len(parts) == 1:
+        hits = [st for st in tree.body if isinstance(st, (ast.Assign, ast.AnnAssign)) and getattr(st, "value", None) is not None
+                and any(isinstance(t, ast.Name) and t.id == d for t in (st.targets if isinstance(st, ast.Assign) else [st.target]))]
+        stores = [x for x in ast.walk(tree) if isinstance(x, ast.Name) and x.id == d and isinstance(x.ctx, (ast.Store, ast.Del))]
+        return hits[0].value if len(hits) == 1 and len(stores) == 1 else None
+    if len(parts) == 2 and f.cls is not None and parts[0] in ("self", "cls", f.cls.name):
+        for c in repo.mro(f.cls):
+            if parts[1] in c.assigns:
+                return c.assigns[parts[1]]
+    return None
+
+
 def _literal_list(fl, expr, node):
     ex = fl.expand(expr, node)
     try:
         v = const_value(ex)
     except (ValueError, TypeError):
-        return None
+        nc = _named_constant(fl, ex)
+        if nc is None:
+            return None
+        try:
+            v = const_value(nc)
+        except (ValueError, TypeError):
+            return None
     if isinstance(v, (list, tuple)) and all(isinstance(x, str) for x in v):
         return list(v)
     return None
@@ -170,8 +205,16 @@ def dump_table(repo, ci, _depth=0):
     rets = [n for n in fl.cfg.nodes if n.kind == "return"]
     if not rets:
         raise AnalysisError(f"{f.qual}: no return")
+    _CONST_SCOPE[id(fl)] = (repo, f)
     dname = None
+    inline_inits = []
     for r in rets:
+        if isinstance(r.expr, ast.Tuple) and len(r.expr.elts) == 2 and len(rets) == 1 and \
+                (isinstance(r.expr.elts[0], (ast.Dict, ast.DictComp)) or (isinstance(r.expr.elts[0], ast.Call) and call_name(r.expr.elts[0]) == "dict")):
+            # `return {...}, ctx`: the dictionary is built in the return statement itself
+            inline_inits.append((r, r.expr.elts[0]))
+            dname = "__returned_dict__"
+            continue
         if not (isinstance(r.expr, ast.Tuple) and len(r.expr.elts) == 2 and isinstance(r.expr.elts[0], ast.Name)):
             raise AnalysisError(f"{f.qual}: return form not recognised: {src(r.stmt)}")
         if dname not in (None, r.expr.elts[0].id):
@@ -188,10 +231,19 @@ def dump_table(repo, ci, _depth=0):
             table[key] = e
 
     recognised_init = False
+    synthetic = []
+    for r, v in inline_inits:
+        a = ast.copy_location(ast.Assign(targets=[ast.Name(id=dname, ctx=ast.Store())], value=v, type_comment=None), r.stmt)
+        synthetic.append((r, a))
     for n in fl.cfg.nodes:
-        if n.kind not in ("stmt",):
+        if n.kind not in ("stmt", "return"):
             continue
         s = n.stmt
+        if n.kind == "return":
+            hit = [a for r, a in synthetic if r is n]
+            if not hit:
+                continue
+            s = hit[0]
         if isinstance(s, (ast.Assign, ast.AnnAssign)) and getattr(s, "value", None) is not None:
             tg = s.targets if isinstance(s, ast.Assign) else [s.target]
             for t in tg:
@@ -265,9 +317,16 @@ def dump_table(repo, ci, _depth=0):
         for e in fl.cfg.node_exprs(n):
             for p, m, c in mutating_calls(e):
                 if p == dname:
-                    if m == "update" and len(c.args) == 1 and isinstance(c.args[0], ast.Dict):
+                    if m == "update" and len(c.args) == 1 and isinstance(c.args[0], ast.Dict) and not c.keywords:
                         for k, val in zip(c.args[0].keys, c.args[0].values):
                             add(const_value(k), n, val, False)
+                    elif m == "update" and not c.args and c.keywords and all(k.arg is not None for k in c.keywords):
+                        for kw in c.keywords:                      # D.update(key=value, ...)
+                            add(kw.arg, n, kw.value, False)
+                    elif m == "update" and len(c.args) == 1 and isinstance(c.args[0], ast.Call) and call_name(c.args[0]) == "dict" \
+                            and not c.args[0].args and all(k.arg is not None for k in c.args[0].keywords) and not c.keywords:
+                        for kw in c.args[0].keywords:              # D.update(dict(key=value, ...))
+                            add(kw.arg, n, kw.value, False)
                     else:
                         raise AnalysisError(f"{f.qual}: mutation of {dname} not recognised: {src(c)}")
     if not recognised_init:
